@@ -23,8 +23,7 @@ PD = "linux::ptrace_dumper::PtraceDumper"
 DETACH = "linux::ptrace_dumper::ptrace_detach"
 
 
-def rule_drop_resumes(ctx):
-    R = "C03/drop-resumes"
+def rule_drop_resumes(ctx, R="C03/drop-resumes"):
     b = ctx.body(R, "<%s as std::ops::Drop>::drop" % PD)
     if b is None:
         return
